@@ -1,10 +1,48 @@
 package main
 
+const innerRule = " Each compiled case then runs an inner rapid search over struct values / Terraform objects / histories of every selected root type."
+
 var table = map[string]propInfo{
 	"C01": {
 		quick:    budget{checks: 48, shards: 16},
 		thorough: budget{checks: 1500, shards: 16},
 		rule: "each case is one (descriptor S in D, configuration K, package layout) drawn by rapid; the real plugin and protoc-gen-gogo are run on the synthesised request and the result is compiled. " +
 			"Non-trivial: S uses >= 3 distinct field kinds and >= 1 composite (list/map/message/oneof/embedded). Distinct by 64-bit hash of (S, K, layout).",
+	},
+	"C02": {
+		quick:    budget{checks: 32, shards: 16, inner: 150},
+		thorough: budget{checks: 400, shards: 16, inner: 600},
+		rule: "outer: (S, K) drawn by rapid and compiled;" + innerRule + " C02: the run-time schema is compared with the model M(S,K) (names, types, no extra or missing attribute), then single fields are probed with a distinctive value (write probe through CopyTo, read probe through CopyFrom). " +
+			"Non-trivial: the probed field is nested, an element, a oneof member, embedded, renamed or cast. Distinct by hash of (root, attribute path, value).",
+	},
+	"C03": {
+		quick:    budget{checks: 32, shards: 16, inner: 300},
+		thorough: budget{checks: 300, shards: 16, inner: 2000},
+		rule: "outer: (S, K) drawn by rapid and compiled;" + innerRule + " C03: struct values V(T) are copied into an empty schema-typed object; the result is walked against the schema type and handed to the framework (ToTerraformValue, ValueFromTerraform, State.Set). " +
+			"Non-trivial: the value has a nil embedded pointer, an empty non-nil collection, a nil element, a zero-valued oneof payload or depth >= 2. Distinct by hash of the value's normal form.",
+	},
+	"C04": {
+		quick:    budget{checks: 32, shards: 16, inner: 300},
+		thorough: budget{checks: 300, shards: 16, inner: 2000},
+		rule: "outer: (S, K) drawn by rapid and compiled;" + innerRule + " C04: NF(CopyFrom(CopyTo(x, empty))) == NF(x) with the documented normal form. " +
+			"Non-trivial: >= 1 non-zero leaf below a list/map/oneof/nested message. Distinct by hash of the value's normal form.",
+	},
+	"C10": {
+		quick:    budget{checks: 48, shards: 16, inner: 1},
+		thorough: budget{checks: 600, shards: 16, inner: 1},
+		rule: "each case is one (S with generated comments, K with arbitrary flag subsets, validator / plan-modifier lists, injected fields) compiled and its run-time schema walked against M(S,K). " +
+			"Non-trivial: >= 2 different flags set below the root, or a multi-line comment. Distinct by hash of (S, K).",
+	},
+	"C19": {
+		quick:    budget{checks: 16, shards: 16, inner: 500},
+		thorough: budget{checks: 120, shards: 16, inner: 5000},
+		rule: "outer: scalar-dense (S, K) drawn by rapid and compiled;" + innerRule + " C19: values drawn from the boundary set of every Go field type (plus random values) must survive CopyTo;CopyFrom exactly. " +
+			"Non-trivial: a non-zero leaf in a non-singular shape (element, map value, oneof member, nested). Distinct by hash of the value's normal form.",
+	},
+	"C20": {
+		quick:    budget{checks: 32, shards: 16, inner: 300},
+		thorough: budget{checks: 300, shards: 16, inner: 2000},
+		rule: "outer: (S, K) drawn by rapid and compiled;" + innerRule + " C20: values with every leaf zero with probability 1/2; after CopyTo into an empty object the null flag of every attribute outside list/map elements is compared with the field. " +
+			"Non-trivial: the value has both zero and non-zero leaves at depth >= 1. Distinct by hash of the value's normal form.",
 	},
 }
